@@ -190,7 +190,8 @@ def run_history_impl(w, rng, ops):
             keep_mtime(cf, lambda: open(cf, "wb").write(new))
         elif name == "foreign" and os.path.exists(cf):
             data = open(cf, "rb").read()
-            keep_mtime(cf, lambda: open(cf, "wb").write(b"0.0.0-other\n" + data.split(b"\n", 1)[1]))
+            rest = data.split(b"\n", 1)[1] if b"\n" in data else b""  # (an earlier `damage` may have cut the header line)
+            keep_mtime(cf, lambda: open(cf, "wb").write(b"0.0.0-other\n" + rest))
         elif name == "removeCache" and os.path.exists(cf):
             os.unlink(cf)
         out.append((res, os.path.exists(cf)))
